@@ -15,7 +15,8 @@ STRATS = [
 
 INPUTS = {
     "line": [b"a\nb\n{\n}\nc\n", b"x\n{\nx\n}\na\na\na\na\n", b"{\n}\na\n", b"{\na\nb\n}\n", b"x\n(\na\nb\nc\n)\n", b"x\nDDBEGIN\na\na\n{\n\n}\nDDEND\ny\n", b"function foo(a,b) {\n  list = a + b;\n}\nfoo(2, 3)\n",
-             b"function Foo() {\n  this.list = [];\n}\nFoo.prototype.push = function(a) {\n  this.list.push(a);\n}\n"],
+             b"function Foo() {\n  this.list = [];\n}\nFoo.prototype.push = function(a) {\n  this.list.push(a);\n}\n",
+             b"(function (a, b) {\n  return a + b;\n})(1, 2);\nvar z = (function (c) { return c; })(3);\n"],
     "char": [b"ab{}c", b"q\nDDBEGIN\nabab\r\nDDEND\n"],
     "symbol": [b"a;b{c}d;", b"f(a){\n \n};g[1]=2;\n"],
     "jsstr": [b"x = 'ab\\x41' + \"c\";\n", b"'a' + 'a' + \"a\"\n"],
